@@ -415,22 +415,21 @@ def run(tier: str) -> Check:
         "the unrolled forms are those of the specification table shared with C03/C04",
     ]
     repo, rep = fill(check, tier)
-    o10_truthy(check, repo, rep)
+    # ---- semantic rules (the passes evaluated on the program model): these decide
+    before = len(check.findings)
     o11_skip_search(check, repo, rep)
     o12_squash_semantics(check, repo, tier)
-    o13_fold_flags(check, repo)
     o14_inline_semantics(check, repo)
     o15_pipeline(check, repo)
     o16_skip_pass(check, repo)
-    o1_unchecked(check, repo)
-    o2_order(check, repo, tier)
-    o3_trivia(check, repo)
-    o4_purity(check, repo)
-    o5_inplace(check, repo)
-    o7_unroll(check, repo)
     o7b_unroll_concrete(check, repo)
-    o8_inliners(check, repo)
-    o9_skip_rule(check, repo)
+    sem_ok = len(check.findings) == before and not getattr(check, "deferred", [])
+    o10_truthy(check, repo, rep)
+    o2_order(check, repo, tier)
+    # ---- structural readings of the same passes (contradiction / registration / purity / shape rules): second
+    # opinions - reported when the semantic rules fail too, notes when the passes are right but written differently
+    for fn_ in (o1_unchecked, o3_trivia, o4_purity, o5_inplace, o7_unroll, o8_inliners, o9_skip_rule, o13_fold_flags):
+        check.second_opinion(lambda c, fn_=fn_: fn_(c, repo), "O11/O12/O14/O15/O16/O7 on the program model", sem_ok)
     check.floor("truthy_skeletons", 2)
     check.floor("skip_search_model_points", 300)
     check.floor("squash_model_choices_rewritten", 500)
